@@ -35,6 +35,10 @@ pub enum Defect {
     WrongContext,
     /// promise[0] raised by one (None -> Some(1))
     PromisePlus,
+    /// malformed: the first L point replaced by bytes that do not decode
+    UndecodableL,
+    /// malformed: one round too many
+    ExtraRound,
 }
 
 #[derive(Clone, Debug, Serialize, Deserialize)]
@@ -116,9 +120,11 @@ fn prepare<G: Group>(sc: &Scenario, idx: usize, st: &mut RunStats, rng: &mut Sim
             Defect::CrossStatement => "cross_statement",
             Defect::WrongContext => "wrong_context",
             Defect::PromisePlus => "promise_plus",
+            Defect::UndecodableL => "undecodable_l",
+            Defect::ExtraRound => "extra_round",
         }));
         match d {
-            Defect::D1Plus(_) | Defect::R1Plus | Defect::APoint => {
+            Defect::D1Plus(_) | Defect::R1Plus | Defect::APoint | Defect::UndecodableL | Defect::ExtraRound => {
                 let mut parts = ProofParts::of::<G>(&proof).expect("harness parses library bytes");
                 match d {
                     Defect::D1Plus(k) => {
@@ -129,6 +135,14 @@ fn prepare<G: Group>(sc: &Scenario, idx: usize, st: &mut RunStats, rng: &mut Sim
                     Defect::R1Plus => {
                         let s = ProofParts::scalar(&parts.r1).unwrap() + Scalar::ONE;
                         parts.r1 = s.to_bytes();
+                    },
+                    Defect::UndecodableL => {
+                        if let Some(first) = parts.lr.first_mut() {
+                            first.0 = G::undecodable(rng);
+                        }
+                    },
+                    Defect::ExtraRound => {
+                        parts.lr.push((G::enc(&G::random_point(rng)), G::enc(&G::random_point(rng))));
                     },
                     _ => {
                         parts.a = G::enc(&G::random_point(rng));
@@ -519,7 +533,9 @@ impl Check for C03 {
                 wit.seed_nonce = Some(rng.next_u64());
             }
             let defect = if i >= 2 && rng.chance(1, 3) {
-                Some(match rng.below(6) {
+                Some(match rng.below(8) {
+                    6 => Defect::UndecodableL,
+                    7 => Defect::ExtraRound,
                     0 => Defect::D1Plus(rng.usize_below(ext)),
                     1 => Defect::R1Plus,
                     2 => Defect::APoint,
@@ -723,6 +739,8 @@ impl Check for C03 {
             "mixed_capacities",
             "mask_alignment_checked",
             "honest_message_next_to_defective_twin",
+            "defect_undecodable_l",
+            "defect_extra_round",
             "shape_empty",
             "shape_length_mismatch",
             "length_mismatch_at_chunk_boundary",
